@@ -480,12 +480,23 @@ class MetadorGroup(MetadorNode):
 
     # must wrap nodes passed into the callback function and filter visited names
     def visititems(self, func):
-        def wrapped_func(name, node):
+        # collect the nodes first, then call the function - it could change the
+        # container, which is not possible while HDF5 is iterating over it
+        nodes = []
+
+        def collect(name, node):
             if M.is_internal_path(node.name) or not self._is_wrappable(node):
                 return  # skip path/node
-            return func(name, self._wrap_if_node(node))
+            nodes.append((name, node))
 
-        return self.__wrapped__.visititems(wrapped_func)  # RAW
+        self.__wrapped__.visititems(collect)  # RAW
+        for name, node in nodes:
+            if isinstance(node, h5py.HLObject) and not node:
+                continue  # was removed meanwhile (invalid handle)
+            ret = func(name, self._wrap_if_node(node))
+            if ret is not None:
+                return ret  # (a result stops the walk)
+        return None
 
     # paths passed to visit also must be filtered, so must override this one too
     def visit(self, func):
